@@ -154,6 +154,32 @@ Fixpoint party_run (bind : bool) (e : env) (ps : pstate) (ms : list msg) : pstat
 Definition party_final (bind : bool) (e : env) (ms : list msg) : pstate :=
   fold_left (fun ps m => fst (party_step bind e ps m)) ms (p_init e).
 
+(* round1.Start: verify messages that arrived while round0 was still checking the proposal were
+   stored (baseParty.StoreMessage) and are replayed through Update, in the order of Go's map
+   iteration (here: the order of the list); an error of Update ends the party, the rest is not
+   replayed.  The party's advance loop runs only after the whole replay. *)
+Fixpoint r1_replay (bind : bool) (e : env) (st : rstate) (ms : list msg) : rstate * list outcome * bool :=
+  match ms with
+  | [] => (st, [], false)
+  | m :: ms' =>
+      let '(st', oc) := r1_update bind e st m in
+      match oc with
+      | OExisted => (st', [oc], true)
+      | _ => let '(sf, l, err) := r1_replay bind e st' ms' in (sf, oc :: l, err)
+      end
+  end.
+
+Definition party_start (bind : bool) (e : env) (future : list msg) : pstate * list outcome * term :=
+  let '(st, l, err) := r1_replay bind e (r_init e) future in
+  if err then (PState Closed st, l, TErrExisted)
+  else if st_can st then
+    let t := finalize e st in (PState (match t with TDone => Finished | _ => Closed end) st, l, t)
+  else (PState Collecting st, l, TNone).
+
+(* the party after the stored messages [future] and then the messages [ms] *)
+Definition party_final_from (bind : bool) (e : env) (future ms : list msg) : pstate :=
+  fold_left (fun ps m => fst (party_step bind e ps m)) ms (fst (fst (party_start bind e future))).
+
 End Round.
 
 (* ---- instance: integers modulo q, messages named by their index in a table of logarithms ---- *)
@@ -166,3 +192,10 @@ Definition zsel (m : list (Z * Z)) : list nat := seq 0 (length m).
 
 Definition zparty_run (q : Z) (hs : list Z) (bind : bool) (e : @env Z nat) (ms : list (@msg Z nat)) :=
   party_run (zq q) Z.eqb (zveq q) (Z.eqb 0) (zvz q) Nat.eqb (zH hs) zsel bind e (p_init e) ms.
+
+Definition zparty_start (q : Z) (hs : list Z) (bind : bool) (e : @env Z nat) (fut : list (@msg Z nat)) :=
+  party_start (zq q) Z.eqb (zveq q) (Z.eqb 0) (zvz q) Nat.eqb (zH hs) zsel bind e fut.
+
+Definition zparty_run_from (q : Z) (hs : list Z) (bind : bool) (e : @env Z nat) (ps : @pstate Z)
+  (ms : list (@msg Z nat)) :=
+  party_run (zq q) Z.eqb (zveq q) (Z.eqb 0) (zvz q) Nat.eqb (zH hs) zsel bind e ps ms.
